@@ -53,11 +53,11 @@ Proof.
   unfold mapper_new_taxon in H. inversion H; subst. simpl. exists [s]. reflexivity.
 Qed.
 
-Lemma sk_body_props : forall fuel m z items ncs ac items' ncs' m' z',
-  sk_body lower fuel m z items ncs ac = Ok (items', ncs', m', z') ->
+Lemma sk_body_props : forall fuel m z items ncs ac seen items' ncs' m' z',
+  sk_body lower fuel m z items ncs ac seen = Ok (items', ncs', m', z') ->
   suf (z_toks z') (z_toks z) /\ prefix_of (m_ns m) (m_ns m').
 Proof.
-  induction fuel as [|f IH]; intros m z items ncs ac items' ncs' m' z' H; simpl in H; [discriminate|].
+  induction fuel as [|f IH]; intros m z items ncs ac seen items' ncs' m' z' H; simpl in H; [discriminate|].
   assert (PR : prefix_of (m_ns m) (m_ns m)) by (exists []; rewrite app_nil_r; reflexivity).
   destruct (tok_is (set_com z []) K_SEMI).
   { destruct (next_token (set_com z [])) as [z1|e|] eqn:E; cbn [bind] in H; try discriminate.
@@ -75,10 +75,12 @@ Proof.
   { destruct (require_next_token (set_com z [])) as [z1|e|] eqn:E; cbn [bind] in H; try discriminate.
     destruct (require_next_token (set_com z1 [])) as [z2|e|] eqn:E2; cbn [bind] in H; try discriminate.
     apply IH in H. destruct H as [H1 H2]. fwd2. split; [suf_chain | assumption]. }
-  destruct (require_next_token (set_com z [])) as [z1|e|] eqn:E; cbn [bind] in H; try discriminate.
   destruct ac.
-  - apply IH in H. destruct H as [H1 H2]. fwd2. split; [suf_chain | assumption].
+  - destruct (require_next_token (set_com z [])) as [z1|e|] eqn:E; cbn [bind] in H; try discriminate.
+    apply IH in H. destruct H as [H1 H2]. fwd2. split; [suf_chain | assumption].
   - destruct (require_taxon_for_symbol lower m (cur_text (set_com z []))) as [i m1] eqn:ER.
+    destruct (existsb (Nat.eqb i) seen); [discriminate|].
+    destruct (require_next_token (set_com z [])) as [z1|e|] eqn:E; cbn [bind] in H; try discriminate.
     apply IH in H. destruct H as [H1 H2]. apply require_grows in ER. fwd2. split; [suf_chain|].
     destruct ER as [r1 E1]. destruct H2 as [r2 E2]. exists (r1 ++ r2). rewrite E2, E1, app_assoc. reflexivity.
 Qed.
@@ -93,7 +95,7 @@ Proof.
   apply sk_skip_semis_suf in E1. simpl in E1.
   destruct (z_eof z1); [inversion H; subst; split; assumption|].
   destruct (sk_tree_comments tc None []) as [rooted kept].
-  destruct (sk_body lower (length (z_toks z) + 3) m z1 [] [] false) as [[[[items ncs] m1] z2]|e|] eqn:E2; cbn [bind] in H; try discriminate.
+  destruct (sk_body lower (length (z_toks z) + 3) m z1 [] [] false []) as [[[[items ncs] m1] z2]|e|] eqn:E2; cbn [bind] in H; try discriminate.
   apply sk_body_props in E2. destruct E2 as [S2 P2].
   destruct (sk_trailing (length (z_toks z) + 3) z2) as [z3|e|] eqn:E3; cbn [bind] in H; try discriminate.
   apply sk_trailing_suf in E3. inversion H; subst. split; [suf_chain | assumption].
